@@ -146,7 +146,15 @@ var c10Seq atomic.Int64
 
 // c10Restore restores from dir (through client wrap, if any) into a fresh output path and classifies the outcome.
 func c10Restore(r *c10Replica, dir string, wrap func(litestream.ReplicaClient) litestream.ReplicaClient, work string, integrity litestream.IntegrityCheckMode) (outcome string, prob *scn.Problem) {
+	return c10RestorePre(r, dir, wrap, work, integrity, nil)
+}
+
+// c10RestorePre: pre, if set, prepares the surroundings of the (absent) output path before the restore starts.
+func c10RestorePre(r *c10Replica, dir string, wrap func(litestream.ReplicaClient) litestream.ReplicaClient, work string, integrity litestream.IntegrityCheckMode, pre func(out string)) (outcome string, prob *scn.Problem) {
 	out := filepath.Join(work, fmt.Sprintf("out-%d", c10Seq.Add(1)))
+	if pre != nil {
+		pre(out)
+	}
 	defer func() {
 		os.Remove(out)
 		os.Remove(out + ".tmp")
@@ -319,7 +327,7 @@ func c10(args []string) int {
 		},
 		Coverage: map[string]any{
 			"evaluations": evals, "distinct_nontrivial": len(outcomes),
-			"rule":    "for each replica built by a real history and each file of its restore plan: delete it, truncate it to every length, XOR every byte with 0x01 and with 0xFF, and fail its download (error / premature EOF) at every byte offset 1..4 consecutive times; plus pre-existing output (file, directory, symlink) and a forced integrity failure; oracle: outcome is an error, or success with bytes identical to the uncorrupted restore; never <output>.tmp left, never an output after an error, never an existing path touched; distinct = (corruption class, outcome class) pairs",
+			"rule":    "for each replica built by a real history and each file of its restore plan: delete it, truncate it to every length, XOR every byte with 0x01 and with 0xFF, and fail its download (error / premature EOF) at every byte offset 1..4 consecutive times; plus pre-existing output (file, directory, symlink), a stale <output>.tmp of an earlier killed restore (longer / shorter than the database) and a forced integrity failure; oracle: outcome is an error, or success with bytes identical to the uncorrupted restore; never <output>.tmp left, never an output after an error, never an existing path touched; distinct = (corruption class, outcome class) pairs",
 			"samples": samples, "exhaustive": exhaustive, "jobs_planned": len(jobs), "jobs_done": done, "cli_restore_invocations": cliRuns, "cli_restore_status": cliStatus, "cli_restore_outcomes": cliOutcomes,
 			"cli_rule": "the real `litestream restore` binary for every (output path absent | empty file | live database with an un-checkpointed -wal) x (no flag | -force | -if-db-not-exists) x (latest | timestamp): success = SQLite reads at the output path exactly the restore of the same target into a fresh path; refusal / skip = path and sidecars untouched", "replicas": plans, "outcome_classes": top,
 		}}
@@ -452,6 +460,11 @@ func c10Jobs(reps []*c10Replica, thorough bool) []c10Job {
 				jobs = append(jobs, c10Job{r, fi, "xor01", o, 0}, c10Job{r, fi, "xorff", o, 0})
 			}
 		}
+		// what a restore killed earlier leaves next to the (absent) output path: its staging file, longer or
+		// shorter than the database restored now
+		for _, k := range []string{"stale-tmp-longer", "stale-tmp-shorter"} {
+			jobs = append(jobs, c10Job{r, 0, k, 0, 0})
+		}
 		for _, k := range []string{"exists-file", "exists-empty-file", "exists-dir", "exists-empty-dir", "exists-symlink", "integrity", "integrity-quick", "integrity-magic", "integrity-magic-quick", "integrity-schema", "integrity-schema-quick"} {
 			jobs = append(jobs, c10Job{r, 0, k, 0, 0})
 		}
@@ -526,6 +539,18 @@ func c10Exec(j c10Job, work string) (outcome string, prob *scn.Problem, desc str
 			// within the retry budget the fault must be transparent; not a property violation, recorded as an outcome class
 			outcome = "error-within-retry-budget:" + outcome
 		}
+	case "stale-tmp-longer", "stale-tmp-shorter":
+		n := len(j.r.Expected) + 3*4096 + 17
+		if j.kind == "stale-tmp-shorter" {
+			n = len(j.r.Expected) / 2
+		}
+		outcome, prob = c10RestorePre(j.r, j.r.Dir, nil, work, litestream.IntegrityCheckNone, func(out string) {
+			os.WriteFile(out+".tmp", bytes.Repeat([]byte{0xAB}, n), 0o644)
+		})
+		if prob != nil {
+			prob.Detail = j.kind + " (staging file of an earlier, killed restore next to the output path): " + prob.Detail
+		}
+		outcome = j.kind + "/" + outcome
 	case "exists-file", "exists-empty-file", "exists-dir", "exists-empty-dir", "exists-symlink":
 		out := filepath.Join(work, "pre")
 		os.RemoveAll(out)
